@@ -16,7 +16,8 @@ func init() {
 		Level: "exploration",
 		Rule: "abstract annotations of named coding features (forward/reverse, 1-3 segments with split codons, codon_start 1-3, overlapping, slippage joins) rendered both as a GenBank flat file (a..b, join, complement, complement(join), join(complement,...)) and as GFF3 CDS rows sharing an ID with spec-correct phase and ##FASTA; the same FASTA or SAM alignment is run under both and the per-sequence mutation multisets compared; " +
 			"distinct non-trivial = distinct (form, location forms present, strands, split-codon continuation present, codon_start set) of cases whose outputs contain at least one aa record",
-		Assumptions: []string{"only layouts expressible in both formats are generated (every CDS named); GFF rows ascending, phase of the first row in reading order = codon_start-1, continuation rows = bases completing the split codon",
+		Assumptions: []string{"mutation lists are compared as sets (duplicate identical records are not judged); isoforms (same gene name and outer bounds, different junction) are generated",
+			"only layouts expressible in both formats are generated (every CDS named); GFF rows ascending, phase of the first row in reading order = codon_start-1, continuation rows = bases completing the split codon",
 			"the order of records that share one genomic position is free"},
 		MinNontriv: 40,
 		Cases: func(tier string) int {
@@ -44,7 +45,7 @@ func runC14(c *fw.Ctx, idx int) fw.Result {
 	if r.Chance(0.3) {
 		form = "sam"
 	}
-	opts := gen.AnnoOpts{MaxFeats: 5, AllowUnnamed: false, AllowSlip: true, SplitCodons: true}
+	opts := gen.AnnoOpts{MaxFeats: 5, AllowUnnamed: false, AllowSlip: true, SplitCodons: true, Isoforms: true}
 	vp := gen.DefaultVarProfile()
 	if r.Chance(0.4) {
 		vp.PDel, vp.MaxInsSites = 0.05, 5
@@ -110,7 +111,9 @@ func runC14(c *fw.Ctx, idx int) fw.Result {
 	}
 	hasAA := false
 	for i := range nGB {
-		a, b := model.SortedStrings(mutStrings(mGB[i])), model.SortedStrings(mutStrings(mGFF[i]))
+		// compared as sets: whether two identical records (e.g. from two isoforms of one gene)
+		// are merged depends on their adjacency, which is not part of the property
+		a, b := uniqueSorted(mutStrings(mGB[i])), uniqueSorted(mutStrings(mGFF[i]))
 		for _, m := range mGB[i] {
 			if m.Kind == "aa" {
 				hasAA = true
@@ -160,4 +163,15 @@ func runC14(c *fw.Ctx, idx int) fw.Result {
 		res.Sample = map[string]interface{}{"genbank": clipStr(gbTxt, 1200), "gff": clipStr(gffTxt, 900), "observed_gb": clipStr(outGB, 400), "observed_gff": clipStr(outGFF, 400)}
 	}
 	return res
+}
+
+func uniqueSorted(s []string) []string {
+	o := model.SortedStrings(s)
+	var u []string
+	for i, x := range o {
+		if i == 0 || x != o[i-1] {
+			u = append(u, x)
+		}
+	}
+	return u
 }
